@@ -14,7 +14,8 @@ def die(kind):
         from bio2zarr import core
 
         if core._progress_counter is not None:
-            core._progress_counter.get_lock().acquire()
+            # holding the lock, or (when another killed worker already holds it) waiting for it
+            core._progress_counter.get_lock().acquire(timeout=3)
         os._exit(3)
     if kind == "sigterm":
         # terminated from outside (scheduler, watchdog, `kill <pid>`) while inside the task
